@@ -980,7 +980,7 @@ func main() {
 	vf.Main(vf.Spec{
 		ID:    "C04",
 		Level: "exploration",
-		Rule: "every n x n integer matrix of the stated lattices (n<=3, thorough n<=4) and of the structured families of sizes 5 and 6 (large.go: all n! row permutations of unit upper-triangular templates = every pivot order, companion matrices in four orientations over all coefficient vectors, bordered identities, symmetric positive-definite tridiagonal, unit upper-triangular Toeplitz; thorough also permutation matrices +-1 in one entry) x every routine (matrixInverse, gaussJordan solve, determinant, backSubstitution) x every option set whose precondition the matrix satisfies exactly " +
+		Rule: "every n x n integer matrix of the stated lattices (n<=3, thorough n<=4) and of the structured families of sizes 5 and 6 (large.go: all n! row permutations of unit upper-triangular templates = every pivot order, companion matrices in four orientations over all coefficient vectors, bordered identities, symmetric positive-definite tridiagonal, unit upper-triangular Toeplitz; thorough also permutation matrices +-1 in one entry; size sweep n=7..9, thorough 10: unit upper-triangular templates under the row permutations identity, every adjacent interchange, (0 n-1), cyclic shift, reversal) x every routine (matrixInverse, gaussJordan solve, determinant, backSubstitution) x every option set whose precondition the matrix satisfies exactly " +
 			"(PositiveDefinite only on exactly-SPD, UpperTriangular/backSubstitution only on upper-triangular input; Submatrix over all 2^n masks for n<=4 and over {full, empty, each single exclusion, both alternating masks, leading and trailing half} for n>=5; caller-supplied InSitu buffers pre-filled with finite garbage; LogScale) x element type x right-hand side; " +
 			"plus view operands (views.go): on the lattices n=1, n=2 and n=3 over {0,1} (+ the symmetric n=3 matrices with diagonal 2; thorough: + row-permuted triangular, companion, tridiagonal and Toeplitz families of size 4) every routine x option set (masks: full and each single exclusion) x all four element types x every assignment of view kinds {plain, transposed view, slice of a larger matrix, slice of a transposed larger matrix; vectors: plain, slice of a longer vector} to ALL caller-supplied operands the option set uses (input matrix, right-hand side, gaussJordan's a/x/b, InSitu Id/A/B/Cholesky.L, backSubstitution InSitu A/X) with at least one view, judged by the same defining equations; a violation that also occurs with plain operands is reported under the plain key, otherwise under the single view operand that reproduces it; " +
 			"plus two-call histories sharing one in-situ object (hist.go): every routine with work buffers x ordered pairs of option sets x first inputs of a lattice containing singular, not-SPD, non-triangular and non-finite matrices x regular admissible second inputs, the second call must equal the same call with fresh buffers (non-trivial when the first call failed or its input was inadmissible), and the input objects of the FIRST call (matrix, right-hand side; all but gaussJordan, whose arguments are its work space) must be bit for bit what the first call left, after the second call on the same in-situ object (caller input retained as persistent state); " +
